@@ -3,10 +3,10 @@
    Only theorem statements here; proofs are in RleProofs.v.  A frame is a list of slots (len <= 512,
    the DmxBuffer invariant), `cap` is the value of *data_size on entry (any unsigned int), a receiver
    buffer is None (nothing allocated yet: the C++ blacks out 512 slots on first write) or Some slots.
-   The per-protocol send->receive round trips (ShowNet, SandNet, ESP Net, Pathport) are NOT theorems:
-   they are checked by the correspondence harness against the models and expect_* of Model.v. *)
+   The per-protocol send->receive round trips are theorems about the packet models of Model.v
+   (sender's datagram = what the node passes to sendto; receiver = node with one registered handler). *)
 From OlaBase Require Import Bytes.
-From C07 Require Import Gen Model ListLemmas RleProofs.
+From C07 Require Import Gen Model ModelNet2 ListLemmas RleProofs RleMore NetProofs NetProofs2.
 Local Open Scope N_scope.
 
 (* the constants the statements below spell out as literals *)
@@ -58,6 +58,76 @@ Theorem c07_rle_prefix : forall f cap,
 Proof. exact rle_encode_spec. Qed.
 Print Assumptions c07_rle_prefix.
 
+(* Every count byte Encode emits is m or REPEAT_FLAG + m with m in 1..127: what it writes is always a
+   sequence of whole segments (count m followed by m literal slots, or count 128 + m followed by the
+   value), for every frame and capacity, also when truncated. *)
+Theorem c07_rle_count_bytes : forall f cap bytes ret sz,
+  len f <= 512 -> cap < 2^32 ->
+  rle_encode f cap = EOk bytes ret sz -> wf_stream bytes.
+Proof. exact rle_encode_wf. Qed.
+Print Assumptions c07_rle_count_bytes.
+
+(* ShowNet (partial-universe protocol): for every frame of 1-512 slots, every universe 0..7, any
+   sender ip / node name / packet counter and any previous receiver buffer, BuildCompressedPacket
+   yields a datagram, and HandlePacket of that datagram on a node listening on the same universe
+   leaves the frame at slots [0, len f) with all remaining slots untouched (512 zeros when the
+   receiver had no data).  Covers the RLE path and the raw-when-lengths-collide rule (fixes/03). *)
+Theorem c07_shownet_roundtrip : forall ip name seq u f old,
+  1 <= len f -> len f <= 512 -> u < 8 ->
+  exists p, shownet_build ip name seq u f = Some p /\
+            shownet_handle p u old =
+              RHandled (Some (f ++ drop (len f) (materialise old))).
+Proof. exact shownet_roundtrip. Qed.
+Print Assumptions c07_shownet_roundtrip.
+
+(* SandNet (uncompressed): every frame of 1-512 slots, every group/universe 0..255, any port id:
+   the receiver's buffer becomes exactly the frame. *)
+Theorem c07_sandnet_roundtrip : forall g u port f old,
+  1 <= len f -> len f <= 512 -> g < 256 -> u < 256 ->
+  sandnet_handle (sandnet_build g u port f) g u old = RHandled (Some f).
+Proof. exact sandnet_roundtrip. Qed.
+Print Assumptions c07_sandnet_roundtrip.
+
+(* ESP Net (raw data packets, the only kind OLA sends): every frame, every universe 0..255. *)
+Theorem c07_espnet_roundtrip : forall u f old,
+  1 <= len f -> len f <= 512 -> u < 256 ->
+  espnet_handle (espnet_build u f) u old = RHandled (Some f).
+Proof. exact espnet_roundtrip. Qed.
+Print Assumptions c07_espnet_roundtrip.
+
+(* Pathport (partial-universe protocol): every frame, every universe 0..127, any device id and
+   sequence number: frame at slots [0, len f), remaining slots untouched. *)
+Theorem c07_pathport_roundtrip : forall dev seq u f old,
+  1 <= len f -> len f <= 512 -> u <= 127 ->
+  pathport_handle (pathport_build dev seq u f) dev u old =
+    RHandled (Some (f ++ drop (len f) (materialise old))).
+Proof. exact pathport_roundtrip. Qed.
+Print Assumptions c07_pathport_roundtrip.
+
+(* Art-Net: every frame of 1-512 slots, every 8-bit port address (sub-net << 4 | universe), every
+   net 0..127, any sequence number and physical port: SendDMX yields a datagram and HandlePacket of
+   it on a node with the same net whose output port has the same port address (no other source
+   tracked) gives the frame, followed by one zero when the slot count is odd. *)
+Theorem c07_artnet_roundtrip : forall seq phys addr net f old,
+  1 <= len f -> len f <= 512 -> addr < 256 -> net < 128 ->
+  exists p, artnet_build seq phys addr net f = Some p /\
+            artnet_handle p net addr old =
+              R2 (RHandled (Some (if len f mod 2 =? 0 then f else f ++ [0]))).
+Proof. intros. apply artnet_roundtrip; try assumption. lia. Qed.
+Print Assumptions c07_artnet_roundtrip.
+
+(* E1.31, both revisions (rev2 = true: draft 0.2 framing): every frame of 1-512 slots, every
+   universe 1..65534, every priority 0..200, any CID, source name and sequence number, non-preview
+   data: the datagram built by SendDMX (PreamblePacker + Root/E131/DMP PDUs) taken through
+   IncomingUDPTransport and the inflator chain to DMPE131Inflator of a node with a handler for that
+   universe (no source tracked yet, either ignore_preview setting) leaves exactly the frame. *)
+Theorem c07_e131_roundtrip : forall rev2 cid name priority seq universe f ignore_preview old,
+  1 <= len f -> len f <= 512 -> 1 <= universe -> universe <= 65534 -> priority <= 200 ->
+  exists p, e131_build rev2 cid name priority seq universe false f = Some p /\
+            e131_handle p universe ignore_preview old = R2 (RHandled (Some f)).
+Proof. exact e131_roundtrip. Qed.
+Print Assumptions c07_e131_roundtrip.
+
 (* ---- non-vacuity and the pre-fix failures as concrete evaluations of the (fixed) model *)
 Definition ramp (n : nat) : list N := map (fun i => N.of_nat ((i * 7 + 3) mod 256)) (seq 0 n).
 (* 128 distinct slots: the unfixed encoder emitted the count byte 0x80 here *)
@@ -78,5 +148,16 @@ Proof. vm_compute. split; reflexivity. Qed.
 Example ex_shownet_collide :
   match shownet_build [10; 0; 0; 1] [] 0 2 [5; 5; 5; 7] with
   | Some p => shownet_handle p 2 None = RHandled (expect_overlay 0 [5; 5; 5; 7] None) /\ len p = 51
+  | None => False end.
+Proof. vm_compute. split; reflexivity. Qed.
+Example ex_artnet_odd :
+  match artnet_build 1 1 0x23 4 [0; 1; 2; 3; 4] with
+  | Some p => p = [65;114;116;45;78;101;116;0; 0;80; 0;14; 1; 1; 0x23; 4; 0;6; 0;1;2;3;4;0] /\
+              artnet_handle p 4 0x23 None = R2 (RHandled (Some [0;1;2;3;4;0]))
+  | None => False end.
+Proof. vm_compute. split; reflexivity. Qed.
+Example ex_e131_len :
+  match e131_build false (repeat 7 16) [79;76;65] 100 0 1 false (repeat 9 512) with
+  | Some p => len p = 638 /\ e131_handle p 1 true None = R2 (RHandled (Some (repeat 9 512)))
   | None => False end.
 Proof. vm_compute. split; reflexivity. Qed.
